@@ -165,6 +165,10 @@ class Walker:
         if pending is None:
             if kind == "mod" and t.body_group() is not None:
                 return rk == "mod" and rn == name and r.attr_texts() == t.attr_texts() and text_of(t.header()) == text_of(r.header())
+            if kind == "fn" and any(x.startswith(MARK) for x in flat(t.tts)):
+                # entrait attributes INSIDE a function body (block-local items): the function is not itself an
+                # entraited item and its body is not walked
+                return rk == "fn" and rn == name
             return t.text() == r.text()
         # entraited original
         if kind == "fn":
